@@ -238,7 +238,9 @@ Record RI (s : M.st) (xl xb : nat -> nat) (pl pb : list nat) : Prop := mkRI {
       (M.l_closed o = true -> ~ In (M.l_dir o) (M.dirs s) /\
                               ((exists b, nth_error (hs (M.bc s)) (M.l_bh o) = Some (b, true)) \/ 0 < xb (M.l_bh o)));
   i_bdead : forall b o, nth_error (M.bobjs s) b = Some o ->
-      M.b_dir o < length (M.kinds s) /\ (M.b_closed o = true -> ~ In (M.b_dir o) (M.dirs s))
+      M.b_dir o < length (M.kinds s) /\ (M.b_closed o = true -> ~ In (M.b_dir o) (M.dirs s));
+  i_urel : forall u h, nth_error (M.uh s) u = Some (h, true) ->
+      (exists v, nth_error (hs (M.lc s)) h = Some (v, true)) \/ 0 < xl h
 }.
 
 Definition zero : nat -> nat := fun _ => 0.
@@ -247,11 +249,12 @@ Definition RInv (s : M.st) : Prop := RI s zero zero [] [].
 Lemma RI_ext s xl xb xl' xb' pl pb :
   (forall h, xl h = xl' h) -> (forall h, xb h = xb' h) -> RI s xl xb pl pb -> RI s xl' xb' pl pb.
 Proof.
-  intros El Eb [A B C D E F G H I J K L MM N OO]. constructor; auto.
+  intros El Eb [A B C D E F G H I J K L MM N OO PP]. constructor; auto.
   - intros h. rewrite <- El. apply I.
   - intros h. rewrite <- Eb. apply J.
   - intros v o Hv. destruct (N v o Hv) as [N1 N2]. split; [exact N1|]. intros Hc. destruct (N2 Hc) as [N3 N4].
     split; [exact N3|]. rewrite <- Eb. exact N4.
+  - intros u h Hu. rewrite <- El. apply (PP u h Hu).
 Qed.
 
 Lemma avail_le1 c h : avail c h <= 1.
@@ -275,6 +278,7 @@ Proof.
   - tauto.
   - intros [|v] o H; discriminate.
   - intros [|v] o H; discriminate.
+  - intros [|u] h H; discriminate.
 Qed.
 
 Lemma claims_l_frame s s' h : M.uh s' = M.uh s -> M.thrs s' = M.thrs s -> claims_l s' h = claims_l s h.
@@ -299,7 +303,7 @@ Proof.
   assert (Hown : 1 <= cnt (b_claims_d (M.b_dir o)) (M.bobjs s)).
   { apply (cnt_pos _ _ b o Ho). unfold b_claims_d. rewrite Hc, Nat.eqb_refl. reflexivity. }
   pose proof (count_le1 _ (M.b_dir o) (i_nodup _ _ _ _ _ I)) as Hle.
-  destruct I as [A B C D E F G H I J K L MM N OO].
+  destruct I as [A B C D E F G H I J K L MM N OO PP].
   constructor; cbn; auto.
   - rewrite upd_length. exact F.
   - intros b' o' Hb'. destruct (Nat.eq_dec b b') as [<-|Hne].
@@ -392,7 +396,7 @@ Proof.
   pose proof (inv_log_nodup _ I') as Hnd. rewrite Hl in Hnd. destruct (NoDup_app_r _ _ Hnd) as [Hndl Hdis].
   apply fold_close_blob; [exact Hndl| |].
   { intros b Hb. cbn. rewrite Hl. apply in_or_app. right. exact Hb. }
-  destruct I as [A B C D E F G H I J K L MM N OO].
+  destruct I as [A B C D E F G H I J K L MM N OO PP].
   constructor; cbn; auto.
   - rewrite cap_step. exact D.
   - rewrite (len_step_evicting _ _ He). exact F.
@@ -461,7 +465,7 @@ Proof.
   set (s1 := M.rmdir (M.set_lobjs s (upd (M.lobjs s) v (M.mkL true bh dir))) dir).
   set (xb1 := fun h => xb h + (if Nat.eqb h bh then 1 else 0)).
   assert (I1 : RI s1 xl xb1 pl []).
-  { destruct I as [A B C D E F G H I J K L MM N OO].
+  { destruct I as [A B C D E F G H I J K L MM N OO PP].
     constructor; cbn; auto.
     - rewrite upd_length. exact E.
     - intros v' o' Hv'. destruct (Nat.eq_dec v v') as [<-|Hne].
@@ -547,7 +551,7 @@ Proof.
   pose proof (inv_log_nodup _ I') as Hnd. rewrite Hl in Hnd. destruct (NoDup_app_r _ _ Hnd) as [Hndl Hdis].
   apply fold_close_layer; [exact Hndl| |].
   { intros b Hb. cbn. rewrite Hl. apply in_or_app. right. exact Hb. }
-  destruct I as [A B C D E F G H I J K L MM N OO].
+  destruct I as [A B C D E F G H I J K L MM N OO PP].
   constructor; cbn; auto.
   - rewrite cap_step. exact C.
   - rewrite (len_step_evicting _ _ He). exact E.
@@ -560,16 +564,31 @@ Proof.
     + rewrite avail_evicting; [apply I|reflexivity|discriminate].
     + rewrite avail_release. destruct (Nat.eqb_spec h h0) as [->|Hne]; [|apply I].
       rewrite (Hrel h0 ev eq_refl). reflexivity.
+  - intros u h Hu. destruct (PP u h Hu) as [[v Hv]|Hx].
+    + left. exists v. apply fired_mono; assumption.
+    + destruct o as [k|k|k|k|h0 ev]; try discriminate; cbn [x_after]; try (right; exact Hx).
+      destruct (Nat.eqb_spec h h0) as [Heq|Hne]; [|right; exact Hx].
+      left. specialize (I h0). rewrite (Hrel h0 ev eq_refl) in I. rewrite Heq in Hx.
+      unfold avail in I. destruct (nth_error (hs (M.lc s)) h0) as [[i r]|] eqn:H0; [|lia].
+      exists i. rewrite Heq. apply (release_marks_fired _ _ _ _ _ H0).
 Qed.
 
 (* ---------- bookkeeping updates ---------- *)
 Lemma RI_locks s xl xb pl pb x : RI s xl xb pl pb -> RI (M.set_locks s x) xl xb pl pb.
-Proof. intros [A B C D E F G H I J K L MM N OO]. constructor; cbn; auto. Qed.
+Proof. intros [A B C D E F G H I J K L MM N OO PP]. constructor; cbn; auto. Qed.
 
 Definition b2n (b : bool) : nat := if b then 1 else 0.
 
 Definition all_fired (s : M.st) : Prop :=
   forall v o, nth_error (M.lobjs s) v = Some o -> M.l_closed o = true -> exists b, nth_error (hs (M.bc s)) (M.l_bh o) = Some (b, true).
+
+Definition all_ufired (s : M.st) : Prop :=
+  forall u h, nth_error (M.uh s) u = Some (h, true) -> exists v, nth_error (hs (M.lc s)) h = Some (v, true).
+
+Lemma RI_zero_ufired s xb pl pb : RI s zero xb pl pb -> all_ufired s.
+Proof.
+  intros I u h Hu. destruct (i_urel _ _ _ _ _ I u h Hu) as [Hf|Hx]; [exact Hf|]. unfold zero in Hx. lia.
+Qed.
 
 Lemma RI_zero_fired s xl pl pb : RI s xl zero pl pb -> all_fired s.
 Proof.
@@ -583,9 +602,10 @@ Lemma RI_setpc s xl xb xl' xb' t th n p :
   (forall h, b2n (opt_is (pc_bh p) h) + xb' h = b2n (opt_is (pc_bh (M.t_pc th)) h) + xb h) ->
   ((forall h, xb h <= xb' h) \/ all_fired s) ->
   pc_dir p = pc_dir (M.t_pc th) ->
+  ((forall h, xl h <= xl' h) \/ all_ufired s) ->
   RI (M.setpc s t n p) xl' xb' [] [].
 Proof.
-  intros [A B C D E F G H I J K L MM N OO] Ht El Eb Hx Ed.
+  intros [A B C D E F G H I J K L MM N OO PP] Ht El Eb Hx Ed Hxl.
   constructor; cbn; auto.
   - intros h. unfold claims_l in *. cbn.
     pose proof (cnt_upd (t_claims pc_lh h) (M.thrs s) t th (M.mkT n p) Ht) as Hu.
@@ -605,6 +625,9 @@ Proof.
     split; [exact N3|]. destruct Hx as [Hx|Hx].
     + destruct N4 as [N4|N4]; [left; exact N4|right]. specialize (Hx (M.l_bh o)). lia.
     + left. apply (Hx v o Hv Hc).
+  - intros u h Hu. destruct Hxl as [Hxl|Hxl].
+    + destruct (PP u h Hu) as [P1|P1]; [left; exact P1|right]. specialize (Hxl h). lia.
+    + left. apply (Hxl u h Hu).
 Qed.
 
 (* a thread step that leaves all claims where they are *)
@@ -620,7 +643,7 @@ Qed.
 
 Lemma RI_start s n : RInv s -> RInv (M.set_thrs s (M.thrs s ++ [M.mkT n M.PWait])).
 Proof.
-  intros [A B C D E F G H I J K L MM N OO]. constructor; cbn; auto.
+  intros [A B C D E F G H I J K L MM N OO PP]. constructor; cbn; auto.
   - intros h. unfold claims_l in *. cbn. rewrite cnt_snoc. cbn. specialize (I h). lia.
   - intros h. unfold claims_b in *. cbn. rewrite cnt_snoc. cbn. specialize (J h). lia.
   - intros d. unfold claims_d in *. cbn. rewrite cnt_snoc. cbn. specialize (K d). lia.
@@ -699,7 +722,7 @@ Proof.
   assert (E : fst (M.lc_do s o) = M.set_lc s (fst (step (M.lc s) o))).
   { unfold M.lc_do. cbn [fst]. rewrite (newlog_same _ _ Elog). reflexivity. }
   split; [exact E|]. rewrite E.
-  destruct I as [A B C D E' F G H I J K L MM N OO].
+  destruct I as [A B C D E' F G H I J K L MM N OO PP].
   constructor; cbn; auto.
   - apply step_inv. exact A.
   - rewrite cap_step. exact C.
@@ -707,6 +730,7 @@ Proof.
   - intros v' o' Hv'. rewrite Elog. apply G. exact Hv'.
   - intros h. change (claims_l s h + plus_at xl (length (hs (M.lc s))) h = avail (fst (step (M.lc s) o)) h).
     rewrite (avail_snoc _ _ _ h Ehs). unfold plus_at. specialize (I h). lia.
+  - intros u h Hu. destruct (PP u h Hu) as [[w Hw]|Hx]; [left; exists w; eapply fired_snoc; eauto|right; unfold plus_at; lia].
 Qed.
 
 Lemma bc_hit_ok s xl xb o v :
@@ -718,7 +742,7 @@ Proof.
   assert (E : fst (M.bc_do s o) = M.set_bc s (fst (step (M.bc s) o))).
   { unfold M.bc_do. cbn [fst]. rewrite (newlog_same _ _ Elog). reflexivity. }
   split; [exact E|]. rewrite E.
-  destruct I as [A B C D E' F G H I J K L MM N OO].
+  destruct I as [A B C D E' F G H I J K L MM N OO PP].
   constructor; cbn; auto.
   - apply step_inv. exact B.
   - rewrite cap_step. exact D.
@@ -732,10 +756,13 @@ Qed.
 
 (* a caller takes over a handed-out layer-cache handle (Resolve returns a layerRef) *)
 Lemma RI_user s xl xb xl' h :
-  RI s xl xb [] [] -> (forall h', b2n (Nat.eqb h h') + xl' h' = xl h') ->
+  RI s xl xb [] [] -> (forall h', b2n (Nat.eqb h h') + xl' h' = xl h') -> all_ufired s ->
   RI (M.set_uh s (M.uh s ++ [(h, false)])) xl' xb [] [].
 Proof.
-  intros [A B C D E F G H I J K L MM N OO] El. constructor; cbn; auto.
+  intros [A B C D E F G H I J K L MM N OO PP] El Huf. constructor; cbn; auto.
+  2:{ intros u h0 Hu. left. destruct (Nat.lt_ge_cases u (length (M.uh s))) as [Hlt|Hge].
+      - rewrite nth_error_app1 in Hu by exact Hlt. apply (Huf u h0 Hu).
+      - rewrite nth_error_app2 in Hu by exact Hge. destruct (u - length (M.uh s)) as [|j]; [discriminate|destruct j; discriminate]. }
   intros h'. unfold claims_l in *. cbn. rewrite cnt_snoc. unfold u_claims at 2. cbn.
   specialize (I h'). specialize (El h'). rewrite andb_true_r. unfold b2n in El. destruct (h =? h'); lia.
 Qed.
@@ -747,13 +774,14 @@ Lemma RI_setpc_rmdir s xl xb xl' xb' t th n p d :
   (forall h, b2n (opt_is (pc_bh p) h) + xb' h = b2n (opt_is (pc_bh (M.t_pc th)) h) + xb h) ->
   ((forall h, xb h <= xb' h) \/ all_fired s) ->
   pc_dir (M.t_pc th) = Some d -> pc_dir p = None ->
+  ((forall h, xl h <= xl' h) \/ all_ufired s) ->
   RI (M.rmdir (M.setpc s t n p) d) xl' xb' [] [].
 Proof.
-  intros I Ht El Eb Hx Ed Ed'.
+  intros I Ht El Eb Hx Ed Ed' Hxl.
   pose proof (i_eqd _ _ _ _ _ I d) as Hd. pose proof (count_le1 _ d (i_nodup _ _ _ _ _ I)) as Hle.
   assert (Hown : 1 <= cnt (t_claims pc_dir d) (M.thrs s)).
   { apply (cnt_pos _ _ t th Ht). unfold t_claims. rewrite Ed. cbn. apply Nat.eqb_refl. }
-  destruct I as [A B C D E F G H I J K L MM N OO].
+  destruct I as [A B C D E F G H I J K L MM N OO PP].
   constructor; cbn; auto.
   - intros h. unfold claims_l in *. cbn.
     pose proof (cnt_upd (t_claims pc_lh h) (M.thrs s) t th (M.mkT n p) Ht) as Hu.
@@ -781,6 +809,9 @@ Proof.
     + destruct N4 as [N4|N4]; [left; exact N4|right]. specialize (Hx (M.l_bh o)). lia.
     + left. apply (Hx v o Hv Hc).
   - intros b o Hb. destruct (OO b o Hb) as [O1 O2]. split; [exact O1|]. intros Hc. rewrite In_rm. specialize (O2 Hc). tauto.
+  - intros u h Hu. destruct Hxl as [Hxl|Hxl].
+    + destruct (PP u h Hu) as [P1|P1]; [left; exact P1|right]. specialize (Hxl h). lia.
+    + left. apply (Hxl u h Hu).
 Qed.
 
 (* a thread creates a directory *)
@@ -793,7 +824,7 @@ Proof.
   intros I Ht El Eb Ed Ed'.
   assert (Hfresh : ~ In (length (M.kinds s)) (M.dirs s)).
   { intros Hin. apply (i_dlt _ _ _ _ _ I) in Hin. lia. }
-  destruct I as [A B C D E F G H I J K L MM N OO].
+  destruct I as [A B C D E F G H I J K L MM N OO PP].
   constructor; cbn; auto.
   - intros h. unfold claims_l in *. cbn.
     pose proof (cnt_upd (t_claims pc_lh h) (M.thrs s) t th (M.mkT n p) Ht) as Hu.
@@ -850,7 +881,7 @@ Proof.
   { unfold M.bc_do. cbn [fst]. rewrite Hs. cbn [fst]. rewrite (newlog_same _ _ (add_new_log _ _)). reflexivity. }
   cbv zeta. rewrite E. clear E.
   pose proof (add_new_hs (M.bc s) k) as Ehs.
-  destruct I as [A B C D E F G H I J K L MM N OO].
+  destruct I as [A B C D E F G H I J K L MM N OO PP].
   constructor; cbn; auto.
   - replace (add_new (M.bc s) k) with (fst (step (M.bc s) (Add k))) by (rewrite Hs; reflexivity). apply step_inv. exact B.
   - rewrite add_new_cap. exact D.
@@ -892,7 +923,7 @@ Lemma lc_add_new_ok s t th n k bh d lk :
   RInv (M.set_locks (M.setpc (M.set_uh (M.set_lobjs s1 (M.lobjs s1 ++ [M.mkL false bh d]))
                                        (M.uh s1 ++ [(length (hs (M.lc s)), false)])) t n M.PDone) lk).
 Proof.
-  intros I Ht Hp Hf. apply RI_locks.
+  intros I Ht Hp Hf. apply RI_locks. pose proof (RI_zero_ufired _ _ _ _ I) as Hufired.
   assert (Hpd : pc_dir (M.t_pc th) = Some d) by (rewrite Hp; reflexivity).
   destruct (thr_dir_in _ _ _ _ _ _ I Ht Hpd) as [Hdin Hdlt].
   pose proof (add_miss_spec _ k (i_capl _ _ _ _ _ I) Hf) as Hs.
@@ -900,7 +931,7 @@ Proof.
   { unfold M.lc_do. cbn [fst]. rewrite Hs. cbn [fst]. rewrite (newlog_same _ _ (add_new_log _ _)). reflexivity. }
   cbv zeta. rewrite E. clear E.
   pose proof (add_new_hs (M.lc s) k) as Ehs.
-  destruct I as [A B C D E F G H I J K L MM N OO].
+  destruct I as [A B C D E F G H I J K L MM N OO PP].
   constructor; cbn; auto.
   - replace (add_new (M.lc s) k) with (fst (step (M.lc s) (Add k))) by (rewrite Hs; reflexivity). apply step_inv. exact A.
   - rewrite add_new_cap. exact C.
@@ -929,4 +960,538 @@ Proof.
     + rewrite nth_error_app1 in Hv by exact Hlt. apply N with v. exact Hv.
     + rewrite nth_error_app2 in Hv by exact Hge. destruct (v - length (M.lobjs s)) as [|j] eqn:Hj; [|destruct j; discriminate].
       inversion Hv; subst; cbn. split; [exact Hdlt|discriminate].
+  - intros u h Hu. left. destruct (Nat.lt_ge_cases u (length (M.uh s))) as [Hlt|Hge].
+    + rewrite nth_error_app1 in Hu by exact Hlt. destruct (Hufired u h Hu) as [w Hw]. exists w. eapply fired_snoc; eauto.
+    + rewrite nth_error_app2 in Hu by exact Hge. destruct (u - length (M.uh s)) as [|j]; [discriminate|destruct j; discriminate].
 Qed.
+
+Lemma RI_set_lc_id s xl xb pl pb : RI s xl xb pl pb -> RI (M.set_lc s (M.lc s)) xl xb pl pb.
+Proof. intros [A B C D E F G H I J K L MM N OO PP]. constructor; cbn; auto. Qed.
+Lemma RI_set_bc_id s xl xb pl pb : RI s xl xb pl pb -> RI (M.set_bc s (M.bc s)) xl xb pl pb.
+Proof. intros [A B C D E F G H I J K L MM N OO PP]. constructor; cbn; auto. Qed.
+
+Lemma lc_get_miss s k : lru_find (lru (M.lc s)) k = None -> M.lc_do s (Get k) = (M.set_lc s (M.lc s), None).
+Proof.
+  intros Hf. unfold M.lc_do. rewrite (step_get_miss _ _ Hf). cbn [fst snd]. rewrite (newlog_same _ _ eq_refl). reflexivity.
+Qed.
+Lemma bc_get_miss s k : lru_find (lru (M.bc s)) k = None -> M.bc_do s (Get k) = (M.set_bc s (M.bc s), None).
+Proof.
+  intros Hf. unfold M.bc_do. rewrite (step_get_miss _ _ Hf). cbn [fst snd]. rewrite (newlog_same _ _ eq_refl). reflexivity.
+Qed.
+
+Lemma eqb_plus_zero h0 h : b2n (Nat.eqb h0 h) + zero h = b2n false + plus_at zero h0 h.
+Proof. unfold plus_at, zero, b2n. rewrite (Nat.eqb_sym h h0). cbn. lia. Qed.
+
+(* a thread releases (with evict) the layer-cache handle it holds *)
+Lemma thr_release_l s t th n p h ev :
+  RInv s -> nth_error (M.thrs s) t = Some th -> pc_lh (M.t_pc th) = Some h ->
+  pc_lh p = None -> pc_bh p = pc_bh (M.t_pc th) -> pc_dir p = pc_dir (M.t_pc th) ->
+  RInv (fst (M.lc_do (M.setpc s t n p) (Release h ev))).
+Proof.
+  intros I Ht Hh El Eb Ed.
+  set (xl1 := fun h' => b2n (Nat.eqb h h')).
+  assert (I1 : RI (M.setpc s t n p) xl1 zero [] []).
+  { apply (RI_setpc s zero zero xl1 zero t th n p I Ht); auto.
+    - intros h'. rewrite El, Hh. cbn. unfold xl1, zero. lia.
+    - intros h'. rewrite Eb. reflexivity.
+    - left. intros; unfold zero; lia. }
+  assert (Hz : claims_l (M.setpc s t n p) h = 0).
+  { pose proof (i_eql _ _ _ _ _ I1 h) as E. pose proof (avail_le1 (M.lc (M.setpc s t n p)) h). unfold xl1 in E.
+    rewrite Nat.eqb_refl in E. unfold b2n in E. lia. }
+  eapply RI_ext; [| |apply (lc_evict_ok _ _ _ (Release h ev) I1 eq_refl)].
+  - intros h'. cbn [x_after]. unfold xl1, zero. rewrite (Nat.eqb_sym h h'). destruct (h' =? h); reflexivity.
+  - reflexivity.
+  - intros h0 ev0 Heq. inversion Heq; subst. exact Hz.
+Qed.
+
+(* a thread releases (with evict) the blob-cache handle it holds, possibly after removing its directory *)
+Lemma thr_release_b s1 bh ev :
+  RI s1 zero (fun h' => b2n (Nat.eqb bh h')) [] [] ->
+  RInv (fst (M.bc_do s1 (Release bh ev))).
+Proof.
+  intros I1.
+  assert (Hz : claims_b s1 bh = 0).
+  { pose proof (i_eqb _ _ _ _ _ I1 bh) as E. pose proof (avail_le1 (M.bc s1) bh). cbv beta in E.
+    rewrite Nat.eqb_refl in E. unfold b2n in E. lia. }
+  eapply RI_ext; [| |apply (bc_evict_ok _ _ _ _ (Release bh ev) I1 eq_refl)].
+  - reflexivity.
+  - intros h'. cbn [x_after]. unfold zero. rewrite (Nat.eqb_sym bh h'). destruct (h' =? bh); reflexivity.
+  - intros h0 ev0 Heq. inversion Heq; subst. exact Hz.
+Qed.
+
+Lemma all_fired_snoc s s' v : all_fired s -> M.lobjs s' = M.lobjs s -> hs (M.bc s') = hs (M.bc s) ++ [(v, false)] -> all_fired s'.
+Proof.
+  intros H El Eh w o Hw Hc. rewrite El in Hw. destruct (H w o Hw Hc) as [b Hb]. exists b. eapply fired_snoc; eauto.
+Qed.
+
+Lemma all_ufired_snoc s s' v : all_ufired s -> M.uh s' = M.uh s -> hs (M.lc s') = hs (M.lc s) ++ [(v, false)] -> all_ufired s'.
+Proof.
+  intros H El Eh u h Hu. rewrite El in Hu. destruct (H u h Hu) as [b Hb]. exists b. eapply fired_snoc; eauto.
+Qed.
+
+Lemma snd_lc_do s o : snd (M.lc_do s o) = snd (step (M.lc s) o). Proof. reflexivity. Qed.
+Lemma snd_bc_do s o : snd (M.bc_do s o) = snd (step (M.bc s) o). Proof. reflexivity. Qed.
+
+Lemma x_after_nonrel (o : op) x : (forall h ev, o <> Release h ev) -> x_after o x = x.
+Proof. destruct o; try reflexivity. intros H. exfalso. eapply H. reflexivity. Qed.
+
+(* ---------- every sub-step of a Resolve call preserves the invariant ---------- *)
+Lemma tstep_inv s t ok : RInv s -> RInv (fst (M.tstep s t ok)).
+Proof.
+  intros I. unfold M.tstep. destruct (nth_error (M.thrs s) t) as [th|] eqn:Ht; [|exact I].
+  set (n := M.t_name th).
+  destruct (M.t_pc th) as [|h|h| | |bh|bh| | |d|bh|bh d|] eqn:Hp.
+  - (* PWait *)
+    destruct (M.mem n (M.locks s)); [exact I|]. cbv zeta.
+    set (s1 := M.set_locks s (n :: M.locks s)).
+    assert (I1 : RInv s1) by (apply RI_locks; exact I).
+    destruct (lru_find (lru (M.lc s)) n) as [v|] eqn:Hf.
+    + assert (Hh : is_hit (M.lc s1) (Get n) v) by exact Hf.
+      destruct (lc_hit_ok s1 zero zero (Get n) v I1 Hh) as [E I2].
+      destruct (hit_spec _ _ _ Hh) as (_ & _ & _ & fl & Hsnd & _).
+      rewrite snd_lc_do, Hsnd. cbn [fst].
+      apply (RI_setpc _ (plus_at zero (length (hs (M.lc s1)))) zero zero zero t th n _ I2).
+      * rewrite E. exact Ht.
+      * intros h'. rewrite Hp. apply eqb_plus_zero.
+      * intros h'. rewrite Hp. reflexivity.
+      * left. intros; lia.
+      * rewrite Hp. reflexivity.
+      * right. destruct (hit_spec _ _ _ Hh) as (Ehs & _).
+        apply (all_ufired_snoc s _ v (RI_zero_ufired _ _ _ _ I)); rewrite E; [reflexivity|exact Ehs].
+    + rewrite (lc_get_miss s1 n Hf). cbn [fst snd].
+      apply (RI_setpc_same _ t th n); [apply RI_set_lc_id; exact I1|exact Ht|rewrite Hp; reflexivity..].
+  - (* PHit *)
+    destruct (M.layer_flags s h) as [lcl bcl].
+    assert (Hev : RInv (M.setpc s t n (M.PEvict h))).
+    { apply (RI_setpc_same _ t th n); [exact I|exact Ht|rewrite Hp; reflexivity..]. }
+    destruct (negb lcl && negb bcl && ok); [|exact Hev].
+    destruct (M.hval (M.lc s) h) as [v|]; [|exact Hev]. cbn [fst].
+    unfold M.finish, M.unlock. apply RI_locks.
+    change (RI (M.set_uh (M.setpc s t n M.PDone) (M.uh (M.setpc s t n M.PDone) ++ [(h, false)])) zero zero [] []).
+    apply (RI_user _ (fun h' => b2n (Nat.eqb h h')) zero zero h).
+    + apply (RI_setpc s zero zero _ zero t th n _ I Ht).
+      * intros h'. rewrite Hp. cbn. unfold zero. lia.
+      * intros h'. rewrite Hp. reflexivity.
+      * left. intros; lia.
+      * rewrite Hp. reflexivity.
+      * left. intros; unfold zero; lia.
+    + intros h'. unfold zero. lia.
+    + exact (RI_zero_ufired _ _ _ _ I).
+  - (* PEvict *)
+    cbn [fst]. apply (thr_release_l s t th n M.PRemove h true I Ht); try rewrite Hp; reflexivity.
+  - (* PRemove *)
+    cbn [fst].
+    assert (I1 : RInv (M.setpc s t n M.PBlob)) by (apply (RI_setpc_same _ t th n); [exact I|exact Ht|rewrite Hp; reflexivity..]).
+    apply (lc_evict_ok _ _ _ (Remove n) I1 eq_refl). discriminate.
+  - (* PBlob *)
+    cbv zeta.
+    destruct (lru_find (lru (M.bc s)) n) as [v|] eqn:Hf.
+    + assert (Hh : is_hit (M.bc s) (Get n) v) by exact Hf.
+      destruct (bc_hit_ok s zero zero (Get n) v I Hh) as [E I2].
+      destruct (hit_spec _ _ _ Hh) as (Ehs & _ & _ & fl & Hsnd & _).
+      rewrite snd_bc_do, Hsnd. cbn [fst].
+      apply (RI_setpc _ zero (plus_at zero (length (hs (M.bc s)))) zero zero t th n _ I2).
+      * rewrite E. exact Ht.
+      * intros h'. rewrite Hp. reflexivity.
+      * intros h'. rewrite Hp. apply eqb_plus_zero.
+      * right. apply (all_fired_snoc s _ v (RI_zero_fired _ _ _ _ I)); rewrite E; [reflexivity|exact Ehs].
+      * rewrite Hp. reflexivity.
+      * left. intros; lia.
+    + rewrite (bc_get_miss s n Hf). cbn [fst snd].
+      apply (RI_setpc_same _ t th n); [apply RI_set_bc_id; exact I|exact Ht|rewrite Hp; reflexivity..].
+  - (* PBHit *)
+    destruct (negb (M.blob_closed_of s bh) && ok); cbn [fst];
+      (apply (RI_setpc_same _ t th n); [exact I|exact Ht|rewrite Hp; reflexivity..]).
+  - (* PBEvict *)
+    cbn [fst]. apply thr_release_b.
+    apply (RI_setpc s zero zero zero _ t th n _ I Ht).
+    + intros h'. rewrite Hp. reflexivity.
+    + intros h'. rewrite Hp. cbn. unfold zero. lia.
+    + left. intros; unfold zero; lia.
+    + rewrite Hp. reflexivity.
+    + left. intros; lia.
+  - (* PBRemove *)
+    cbn [fst].
+    assert (I1 : RInv (M.setpc s t n M.PMkHttp)) by (apply (RI_setpc_same _ t th n); [exact I|exact Ht|rewrite Hp; reflexivity..]).
+    apply (bc_evict_ok _ _ _ _ (Remove n) I1 eq_refl). discriminate.
+  - (* PMkHttp *)
+    cbn [fst M.mkdir]. apply (RI_mkdir s t th n _ false I Ht); try rewrite Hp; reflexivity.
+  - (* PHandle *)
+    destruct ok.
+    + cbv zeta. destruct (lru_find (lru (M.bc s)) n) as [v|] eqn:Hf.
+      * assert (Hh : is_hit (M.bc s) (Add n) v) by exact Hf.
+        destruct (bc_hit_ok s zero zero (Add n) v I Hh) as [E I2].
+        destruct (hit_spec _ _ _ Hh) as (Ehs & _ & _ & fl & Hsnd & Hfl). cbn in Hfl. subst fl.
+        rewrite snd_bc_do, Hsnd. cbn [fst].
+        change (RI (M.rmdir (M.setpc (fst (M.bc_do s (Add n))) t n (M.PMkFs (length (hs (M.bc s))))) d) zero zero [] []).
+        apply (RI_setpc_rmdir _ zero (plus_at zero (length (hs (M.bc s)))) zero zero t th n _ d I2).
+        -- rewrite E. exact Ht.
+        -- intros h'. rewrite Hp. reflexivity.
+        -- intros h'. rewrite Hp. apply eqb_plus_zero.
+        -- right. apply (all_fired_snoc s _ v (RI_zero_fired _ _ _ _ I)); rewrite E; [reflexivity|exact Ehs].
+        -- rewrite Hp. reflexivity.
+        -- reflexivity.
+        -- left. intros; lia.
+      * rewrite snd_bc_do, (add_miss_spec _ n (i_capb _ _ _ _ _ I) Hf). cbn [fst snd].
+        apply (bc_add_new_ok s t th n n d I Ht Hp Hf).
+    + cbn [fst]. unfold M.finish, M.unlock.
+      change (RI (M.set_locks (M.rmdir (M.setpc s t n M.PDone) d) (M.rm n (M.locks s))) zero zero [] []).
+      apply RI_locks. apply (RI_setpc_rmdir s zero zero zero zero t th n _ d I Ht).
+      * intros h'. rewrite Hp. reflexivity.
+      * intros h'. rewrite Hp. reflexivity.
+      * left. intros; lia.
+      * rewrite Hp. reflexivity.
+      * reflexivity.
+      * left. intros; lia.
+  - (* PMkFs *)
+    cbn [fst M.mkdir]. apply (RI_mkdir s t th n _ true I Ht); try rewrite Hp; reflexivity.
+  - (* PMeta *)
+    assert (Hdrop : RI (M.rmdir (M.setpc s t n M.PDone) d) zero (fun h' => b2n (Nat.eqb bh h')) [] []).
+    { apply (RI_setpc_rmdir s zero zero zero _ t th n _ d I Ht).
+      - intros h'. rewrite Hp. reflexivity.
+      - intros h'. rewrite Hp. cbn. unfold zero. lia.
+      - left. intros; unfold zero; lia.
+      - rewrite Hp. reflexivity.
+      - reflexivity.
+      - left. intros; lia. }
+    destruct ok.
+    + cbv zeta. destruct (lru_find (lru (M.lc s)) n) as [v|] eqn:Hf.
+      * assert (Hh : is_hit (M.lc s) (Add n) v) by exact Hf.
+        destruct (lc_hit_ok s zero zero (Add n) v I Hh) as [E I2].
+        destruct (hit_spec _ _ _ Hh) as (Ehs & _ & _ & fl & Hsnd & Hfl). cbn in Hfl. subst fl.
+        rewrite snd_lc_do, Hsnd. cbn [fst].
+        apply thr_release_b. unfold M.finish, M.unlock.
+        set (X := fst (M.lc_do s (Add n))).
+        change (RI (M.set_locks (M.set_uh (M.rmdir (M.setpc X t n M.PDone) d)
+                   (M.uh (M.rmdir (M.setpc X t n M.PDone) d) ++ [(length (hs (M.lc s)), false)])) (M.rm n (M.locks X)))
+                   zero (fun h' => b2n (Nat.eqb bh h')) [] []).
+        apply RI_locks. apply (RI_user _ (plus_at zero (length (hs (M.lc s)))) _ zero).
+        -- apply (RI_setpc_rmdir X (plus_at zero (length (hs (M.lc s)))) zero _ _ t th n _ d I2).
+           ++ unfold X. rewrite E. exact Ht.
+           ++ intros h'. rewrite Hp. reflexivity.
+           ++ intros h'. rewrite Hp. cbn. unfold zero. lia.
+           ++ left. intros; unfold zero; lia.
+           ++ rewrite Hp. reflexivity.
+           ++ reflexivity.
+           ++ left. intros; lia.
+        -- intros h'. unfold plus_at, zero. rewrite (Nat.eqb_sym h'). lia.
+        -- apply (all_ufired_snoc s _ v (RI_zero_ufired _ _ _ _ I)); unfold X; rewrite E; [reflexivity|exact Ehs].
+      * rewrite snd_lc_do, (add_miss_spec _ n (i_capl _ _ _ _ _ I) Hf). cbn [fst snd].
+        unfold M.finish, M.unlock.
+        apply (lc_add_new_ok s t th n n bh d _ I Ht Hp Hf).
+    + cbn [fst]. apply thr_release_b. unfold M.finish, M.unlock.
+      change (RI (M.set_locks (M.rmdir (M.setpc s t n M.PDone) d) (M.rm n (M.locks s))) zero (fun h' => b2n (Nat.eqb bh h')) [] []).
+      apply RI_locks. exact Hdrop.
+  - exact I.
+Qed.
+
+(* Done / Close by a caller (any number of times, in any order) *)
+Lemma release_inv s u ev : RInv s -> RInv (M.release s u ev).
+Proof.
+  intros I. unfold M.release. destruct (nth_error (M.uh s) u) as [[h r]|] eqn:Hu; [|exact I].
+  set (xl1 := fun h' => b2n (Nat.eqb h h' && negb r)).
+  set (s1 := M.set_uh s (upd (M.uh s) u (h, true))).
+  assert (Hlt : u < length (M.uh s)) by (eapply nth_some_lt; eauto).
+  pose proof (RI_zero_ufired _ _ _ _ I) as Huf.
+  assert (I1 : RI s1 xl1 zero [] []).
+  { destruct I as [A B C D E F G H I J K L MM N OO PP]. constructor; cbn; auto.
+    - intros h'. unfold claims_l in *. cbn.
+      pose proof (cnt_upd (u_claims h') (M.uh s) u (h, r) (h, true) Hu) as Hc.
+      change (u_claims h' (h, r)) with (Nat.eqb h h' && negb r) in Hc.
+      change (u_claims h' (h, true)) with (Nat.eqb h h' && false) in Hc. rewrite andb_false_r in Hc.
+      specialize (I h'). unfold xl1, zero, b2n in *. destruct (Nat.eqb h h' && negb r); lia.
+    - intros u' h' Hu'. destruct (Nat.eq_dec u u') as [<-|Hne].
+      + rewrite nth_upd_eq in Hu' by exact Hlt. inversion Hu'; subst h'. destruct r.
+        * left. apply (Huf u h Hu).
+        * right. unfold xl1. rewrite Nat.eqb_refl. cbn. lia.
+      + rewrite nth_upd_ne in Hu' by exact Hne. left. apply (Huf u' h' Hu'). }
+  assert (Hz : claims_l s1 h = 0).
+  { pose proof (i_eql _ _ _ _ _ I1 h) as E. pose proof (avail_le1 (M.lc s1) h) as Hle. unfold xl1 in E. rewrite Nat.eqb_refl in E.
+    destruct r; cbv [b2n andb negb] in E; [|lia].
+    destruct (Huf u h Hu) as [w Hw]. change (M.lc s1) with (M.lc s) in E. unfold avail in E. rewrite Hw in E. lia. }
+  eapply RI_ext; [| |apply (lc_evict_ok _ _ _ (Release h ev) I1 eq_refl)].
+  - intros h'. cbn [x_after]. unfold xl1, zero. rewrite (Nat.eqb_sym h h'). destruct (h' =? h); reflexivity.
+  - reflexivity.
+  - intros h0 ev0 Heq. inversion Heq; subst. exact Hz.
+Qed.
+
+Theorem step_inv s o : RInv s -> RInv (fst (M.step s o)).
+Proof.
+  intros I. destruct o as [n|t ok|u|u|n|n|u|u ok]; cbn [M.step fst].
+  - apply RI_start. exact I.
+  - apply tstep_inv. exact I.
+  - apply release_inv. exact I.
+  - apply release_inv. exact I.
+  - apply (lc_evict_ok _ _ _ (Expire n) I eq_refl). discriminate.
+  - apply (bc_evict_ok _ _ _ _ (Expire n) I eq_refl). discriminate.
+  - destruct (nth_error (M.uh s) u) as [[h r]|]; [|exact I]. destruct (M.layer_flags s h). exact I.
+  - destruct (nth_error (M.uh s) u) as [[h r]|]; [|exact I]. destruct (M.layer_flags s h). exact I.
+Qed.
+
+Theorem exec_inv os : forall s, RInv s -> RInv (M.exec s os).
+Proof.
+  unfold M.exec. induction os as [|o os IH]; simpl; intros s I; [exact I|]. apply IH. apply step_inv. exact I.
+Qed.
+
+Theorem reach_inv os : RInv (M.exec M.init os).
+Proof. apply exec_inv. apply RInv_init. Qed.
+
+(* ---------- consequences used by Properties/C12.v ---------- *)
+Lemma unfired_live c h v : nth_error (hs c) h = Some (v, false) -> 0 < live c v.
+Proof.
+  intros H. rewrite live_cnt. apply (cnt_pos (hpred v) (hs c) h (v, false) H). unfold hpred. cbn. rewrite Nat.eqb_refl. reflexivity.
+Qed.
+
+Lemma unfired_not_logged c h v : Inv c -> nth_error (hs c) h = Some (v, false) -> ~ In v (log c).
+Proof.
+  intros I H. pose proof (held_not_finalized c v I (unfired_live _ _ _ H)) as Hc. unfold callbacks in Hc.
+  apply (count_occ_not_In Nat.eq_dec). exact Hc.
+Qed.
+
+Lemma user_claims s u h : nth_error (M.uh s) u = Some (h, false) -> 1 <= claims_l s h.
+Proof.
+  intros Hu. unfold claims_l. assert (1 <= cnt (u_claims h) (M.uh s)); [|lia].
+  apply (cnt_pos _ _ u (h, false) Hu). unfold u_claims. cbn. rewrite Nat.eqb_refl. reflexivity.
+Qed.
+
+(* what an unclosed layer object owns *)
+Lemma open_layer_owns s v o : RInv s -> nth_error (M.lobjs s) v = Some o -> M.l_closed o = false ->
+  In (M.l_dir o) (M.dirs s) /\
+  exists b ob, M.hval (M.bc s) (M.l_bh o) = Some b /\ nth_error (hs (M.bc s)) (M.l_bh o) = Some (b, false) /\
+               nth_error (M.bobjs s) b = Some ob /\ M.b_closed ob = false /\ In (M.b_dir ob) (M.dirs s).
+Proof.
+  intros I Hv Hc.
+  assert (Hd : In (M.l_dir o) (M.dirs s)).
+  { apply (count_occ_In Nat.eq_dec). rewrite <- (i_eqd _ _ _ _ _ I). unfold claims_d.
+    assert (1 <= cnt (l_claims_d (M.l_dir o)) (M.lobjs s)); [|lia].
+    apply (cnt_pos _ _ v o Hv). unfold l_claims_d. rewrite Hc, Nat.eqb_refl. reflexivity. }
+  split; [exact Hd|].
+  assert (Hcb : 1 <= claims_b s (M.l_bh o)).
+  { unfold claims_b. assert (1 <= cnt (l_claims_b (M.l_bh o)) (M.lobjs s)); [|lia].
+    apply (cnt_pos _ _ v o Hv). unfold l_claims_b. rewrite Hc, Nat.eqb_refl. reflexivity. }
+  destruct (avail_claimed_b _ _ _ _ I Hcb) as (_ & _ & b & Hb).
+  assert (Hlt : b < length (M.bobjs s)) by (rewrite (i_lenb _ _ _ _ _ I); apply (inv_hs _ (i_bc _ _ _ _ _ I) _ _ _ Hb)).
+  destruct (nth_error (M.bobjs s) b) as [ob|] eqn:Hob; [|apply nth_error_None in Hob; lia].
+  assert (Hbc : M.b_closed ob = false).
+  { destruct (M.b_closed ob) eqn:Hx; [|reflexivity]. apply (i_cb _ _ _ _ _ I _ _ Hob) in Hx. destruct Hx as [Hx _].
+    exfalso. apply (unfired_not_logged _ _ _ (i_bc _ _ _ _ _ I) Hb). exact Hx. }
+  exists b, ob. repeat split; try assumption.
+  - unfold M.hval. rewrite Hb. reflexivity.
+  - apply (count_occ_In Nat.eq_dec). rewrite <- (i_eqd _ _ _ _ _ I). unfold claims_d.
+    assert (1 <= cnt (b_claims_d (M.b_dir ob)) (M.bobjs s)); [|lia].
+    apply (cnt_pos _ _ b ob Hob). unfold b_claims_d. rewrite Hbc, Nat.eqb_refl. reflexivity.
+Qed.
+
+(* held_layer_usable *)
+Lemma held_usable s u h : RInv s -> nth_error (M.uh s) u = Some (h, false) ->
+  M.layer_flags s h = (false, false) /\
+  exists v o b ob,
+    nth_error (hs (M.lc s)) h = Some (v, false) /\ nth_error (M.lobjs s) v = Some o /\ M.l_closed o = false /\
+    In (M.l_dir o) (M.dirs s) /\ nth_error (hs (M.bc s)) (M.l_bh o) = Some (b, false) /\
+    nth_error (M.bobjs s) b = Some ob /\ M.b_closed ob = false /\ In (M.b_dir ob) (M.dirs s).
+Proof.
+  intros I Hu. destruct (avail_claimed_l _ _ _ _ I (user_claims _ _ _ Hu)) as (_ & _ & v & Hv).
+  assert (Hlt : v < length (M.lobjs s)) by (rewrite (i_lenl _ _ _ _ _ I); apply (inv_hs _ (i_lc _ _ _ _ _ I) _ _ _ Hv)).
+  destruct (nth_error (M.lobjs s) v) as [o|] eqn:Ho; [|apply nth_error_None in Ho; lia].
+  assert (Hc : M.l_closed o = false).
+  { destruct (M.l_closed o) eqn:Hx; [|reflexivity]. apply (i_cl _ _ _ _ _ I _ _ Ho) in Hx. destruct Hx as [Hx _].
+    exfalso. apply (unfired_not_logged _ _ _ (i_lc _ _ _ _ _ I) Hv). exact Hx. }
+  destruct (open_layer_owns s v o I Ho Hc) as (Hd & b & ob & Hhv & Hb & Hob & Hbc & Hbd).
+  split.
+  - unfold M.layer_flags, M.hval. rewrite Hv, Ho, Hc. unfold M.blob_closed_of. rewrite Hhv, Hob, Hbc. reflexivity.
+  - exists v, o, b, ob. repeat split; assumption.
+Qed.
+
+Lemma held_use s u h : RInv s -> nth_error (M.uh s) u = Some (h, false) ->
+  M.step s (M.Use u) = (s, M.EUse false false) /\ M.step s (M.Refresh u true) = (s, M.ENone).
+Proof.
+  intros I Hu. destruct (held_usable s u h I Hu) as [Hf _]. cbn. rewrite Hu, Hf. split; reflexivity.
+Qed.
+
+(* released_reclaimed, layer part: nobody holds a done-closure of layer v and it left the cache *)
+Lemma layer_reclaimed s v o : RInv s -> nth_error (M.lobjs s) v = Some o ->
+  (forall h, nth_error (hs (M.lc s)) h <> Some (v, false)) -> ~ in_cache (M.lc s) v ->
+  M.l_closed o = true /\ ~ In (M.l_dir o) (M.dirs s) /\ exists b, nth_error (hs (M.bc s)) (M.l_bh o) = Some (b, true).
+Proof.
+  intros I Ho Hno Hnc.
+  assert (Hl : live (M.lc s) v = 0).
+  { rewrite live_cnt. apply cnt_zero. intros h [w r] Hh. unfold hpred. cbn.
+    destruct (Nat.eqb_spec w v) as [->|]; [|reflexivity]. destruct r; [reflexivity|]. exfalso. apply (Hno h). exact Hh. }
+  assert (Hlt : v < length (ents (M.lc s))) by (rewrite <- (i_lenl _ _ _ _ _ I); eapply nth_some_lt; eauto).
+  destruct (nth_error (ents (M.lc s)) v) as [e|] eqn:He; [|apply nth_error_None in He; lia].
+  destruct (exactly_once_inv _ v e (i_lc _ _ _ _ _ I) He) as [_ Hiff].
+  assert (Hcb : callbacks (M.lc s) v = 1) by (apply Hiff; split; assumption).
+  assert (Hin : In v (log (M.lc s))) by (apply (count_occ_In Nat.eq_dec); unfold callbacks in Hcb; lia).
+  assert (Hc : M.l_closed o = true) by (apply (i_cl _ _ _ _ _ I _ _ Ho); split; [exact Hin|intros []]).
+  destruct (i_ldead _ _ _ _ _ I v o Ho) as [_ Hd]. destruct (Hd Hc) as [Hd1 [Hd2|Hd2]]; [|unfold zero in Hd2; lia].
+  repeat split; assumption.
+Qed.
+
+Lemma blob_reclaimed s b ob : RInv s -> nth_error (M.bobjs s) b = Some ob ->
+  (forall h, nth_error (hs (M.bc s)) h <> Some (b, false)) -> ~ in_cache (M.bc s) b ->
+  M.b_closed ob = true /\ ~ In (M.b_dir ob) (M.dirs s).
+Proof.
+  intros I Ho Hno Hnc.
+  assert (Hl : live (M.bc s) b = 0).
+  { rewrite live_cnt. apply cnt_zero. intros h [w r] Hh. unfold hpred. cbn.
+    destruct (Nat.eqb_spec w b) as [->|]; [|reflexivity]. destruct r; [reflexivity|]. exfalso. apply (Hno h). exact Hh. }
+  assert (Hlt : b < length (ents (M.bc s))) by (rewrite <- (i_lenb _ _ _ _ _ I); eapply nth_some_lt; eauto).
+  destruct (nth_error (ents (M.bc s)) b) as [e|] eqn:He; [|apply nth_error_None in He; lia].
+  destruct (exactly_once_inv _ b e (i_bc _ _ _ _ _ I) He) as [_ Hiff].
+  assert (Hcb : callbacks (M.bc s) b = 1) by (apply Hiff; split; assumption).
+  assert (Hin : In b (log (M.bc s))) by (apply (count_occ_In Nat.eq_dec); unfold callbacks in Hcb; lia).
+  assert (Hc : M.b_closed ob = true) by (apply (i_cb _ _ _ _ _ I _ _ Ho); split; [exact Hin|intros []]).
+  destruct (i_bdead _ _ _ _ _ I b ob Ho) as [_ Hd]. split; [exact Hc|apply Hd; exact Hc].
+Qed.
+
+(* nothing is ever orphaned: every handed-out, unreleased done-closure and every directory has an owner *)
+Definition lc_owner (s : M.st) (h : nat) : Prop :=
+  (exists u, nth_error (M.uh s) u = Some (h, false)) \/
+  (exists t th, nth_error (M.thrs s) t = Some th /\ pc_lh (M.t_pc th) = Some h).
+Definition bc_owner (s : M.st) (h : nat) : Prop :=
+  (exists v o, nth_error (M.lobjs s) v = Some o /\ M.l_closed o = false /\ M.l_bh o = h) \/
+  (exists t th, nth_error (M.thrs s) t = Some th /\ pc_bh (M.t_pc th) = Some h).
+Definition dir_owner (s : M.st) (d : nat) : Prop :=
+  (exists v o, nth_error (M.lobjs s) v = Some o /\ M.l_closed o = false /\ M.l_dir o = d) \/
+  (exists b o, nth_error (M.bobjs s) b = Some o /\ M.b_closed o = false /\ M.b_dir o = d) \/
+  (exists t th, nth_error (M.thrs s) t = Some th /\ pc_dir (M.t_pc th) = Some d).
+
+Lemma opt_is_eq o h : opt_is o h = true -> o = Some h.
+Proof. destruct o as [x|]; cbn; [|discriminate]. intros H. apply Nat.eqb_eq in H. congruence. Qed.
+
+Lemma no_orphans s : RInv s ->
+  (forall h v, nth_error (hs (M.lc s)) h = Some (v, false) -> lc_owner s h) /\
+  (forall h b, nth_error (hs (M.bc s)) h = Some (b, false) -> bc_owner s h) /\
+  (forall d, In d (M.dirs s) -> dir_owner s d).
+Proof.
+  intros I. repeat split.
+  - intros h v Hh. pose proof (i_eql _ _ _ _ _ I h) as E. unfold avail in E. rewrite Hh in E. unfold zero, claims_l in E.
+    destruct (cnt (u_claims h) (M.uh s)) eqn:E1.
+    + right. destruct (cnt_ex (t_claims pc_lh h) (M.thrs s)) as (t & th & Ht & Hp); [lia|].
+      exists t, th. split; [exact Ht|apply opt_is_eq; exact Hp].
+    + left. destruct (cnt_ex (u_claims h) (M.uh s)) as (u & [h' r] & Hu & Hp); [lia|].
+      unfold u_claims in Hp. cbn in Hp. apply andb_true_iff in Hp. destruct Hp as [Hp1 Hp2].
+      apply Nat.eqb_eq in Hp1. subst h'. destruct r; [discriminate|]. exists u. exact Hu.
+  - intros h b Hh. pose proof (i_eqb _ _ _ _ _ I h) as E. unfold avail in E. rewrite Hh in E. unfold zero, claims_b in E.
+    destruct (cnt (l_claims_b h) (M.lobjs s)) eqn:E1.
+    + right. destruct (cnt_ex (t_claims pc_bh h) (M.thrs s)) as (t & th & Ht & Hp); [lia|].
+      exists t, th. split; [exact Ht|apply opt_is_eq; exact Hp].
+    + left. destruct (cnt_ex (l_claims_b h) (M.lobjs s)) as (v & o & Hv & Hp); [lia|].
+      unfold l_claims_b in Hp. apply andb_true_iff in Hp. destruct Hp as [Hp1 Hp2].
+      apply Nat.eqb_eq in Hp2. apply negb_true_iff in Hp1. exists v, o. repeat split; assumption.
+  - intros d Hd. pose proof (i_eqd _ _ _ _ _ I d) as E. apply (count_occ_In Nat.eq_dec) in Hd. unfold claims_d in E.
+    destruct (cnt (l_claims_d d) (M.lobjs s)) eqn:E1; [destruct (cnt (b_claims_d d) (M.bobjs s)) eqn:E2|].
+    + right. right. destruct (cnt_ex (t_claims pc_dir d) (M.thrs s)) as (t & th & Ht & Hp); [lia|].
+      exists t, th. split; [exact Ht|apply opt_is_eq; exact Hp].
+    + right. left. destruct (cnt_ex (b_claims_d d) (M.bobjs s)) as (b & o & Hb & Hp); [lia|].
+      unfold b_claims_d in Hp. apply andb_true_iff in Hp. destruct Hp as [Hp1 Hp2].
+      apply Nat.eqb_eq in Hp2. apply negb_true_iff in Hp1. exists b, o. repeat split; assumption.
+    + left. destruct (cnt_ex (l_claims_d d) (M.lobjs s)) as (v & o & Hv & Hp); [lia|].
+      unfold l_claims_d in Hp. apply andb_true_iff in Hp. destruct Hp as [Hp1 Hp2].
+      apply Nat.eqb_eq in Hp2. apply negb_true_iff in Hp1. exists v, o. repeat split; assumption.
+Qed.
+
+Lemma close_blob_dirs_sub s b d : In d (M.dirs (M.close_blob s b)) -> In d (M.dirs s).
+Proof.
+  unfold M.close_blob. destruct (nth_error (M.bobjs s) b) as [o|]; [|tauto]. destruct (M.b_closed o); [tauto|].
+  cbn. rewrite In_rm. tauto.
+Qed.
+Lemma fold_close_blob_dirs_sub l : forall s d, In d (M.dirs (fold_left M.close_blob l s)) -> In d (M.dirs s).
+Proof.
+  induction l as [|b l IH]; intros s d; simpl; [tauto|]. intros H. apply IH in H. apply close_blob_dirs_sub in H. exact H.
+Qed.
+Lemma bc_do_dirs_sub s o d : In d (M.dirs (fst (M.bc_do s o))) -> In d (M.dirs s).
+Proof. unfold M.bc_do. cbn [fst]. intros H. apply fold_close_blob_dirs_sub in H. exact H. Qed.
+
+Lemma pc_of_setpc s t n p th : nth_error (M.thrs s) t = Some th -> M.pc_of (M.setpc s t n p) t = p.
+Proof. intros Ht. unfold M.pc_of, M.setpc. cbn. rewrite nth_upd_eq; [reflexivity|]. eapply nth_some_lt; eauto. Qed.
+
+(* failed_resolve_leaks_nothing, local part: a Resolve that returns an error is finished and holds nothing *)
+Lemma tstep_err s t ok : snd (M.tstep s t ok) = M.EErr ->
+  M.pc_of (fst (M.tstep s t ok)) t = M.PDone /\ exists th d, nth_error (M.thrs s) t = Some th /\ pc_dir (M.t_pc th) = Some d /\
+  ~ In d (M.dirs (fst (M.tstep s t ok))) /\ (forall d', In d' (M.dirs (fst (M.tstep s t ok))) -> In d' (M.dirs s)).
+Proof.
+  unfold M.tstep. destruct (nth_error (M.thrs s) t) as [th|] eqn:Ht; [|discriminate].
+  destruct (M.t_pc th) as [|h|h| | |bh|bh| | |d|bh|bh d|] eqn:Hp; cbn [fst snd]; try discriminate.
+  - destruct (M.mem _ _); [discriminate|]. cbv zeta. destruct (snd (M.lc_do _ _)); discriminate.
+  - destruct (M.layer_flags s h). destruct (_ && _); [|discriminate]. destruct (M.hval _ _); discriminate.
+  - cbv zeta. destruct (snd (M.bc_do _ _)); discriminate.
+  - destruct (_ && _); discriminate.
+  - destruct ok; [cbv zeta; destruct (snd (M.bc_do _ _)) as [[? []]|]; discriminate|]. intros _. cbn [fst].
+    split; [unfold M.pc_of; cbn; rewrite nth_upd_eq; [reflexivity|eapply nth_some_lt; eauto]|].
+    exists th, d. rewrite Hp. repeat split; try reflexivity; try exact Ht; cbn.
+    + rewrite In_rm. tauto.
+    + intros d'. rewrite In_rm. tauto.
+  - destruct ok; [cbv zeta; destruct (snd (M.lc_do _ _)) as [[? []]|]; discriminate|]. intros _. cbn [fst].
+    match goal with |- context [M.bc_do ?X ?o] => destruct (bc_do_frame X o) as ((Ethr & _) & _); set (Y := fst (M.bc_do X o)) in * end.
+    split; [unfold M.pc_of; rewrite Ethr; cbn; rewrite nth_upd_eq; [reflexivity|eapply nth_some_lt; eauto]|].
+    exists th, d. rewrite Hp. repeat split; try reflexivity; try exact Ht.
+    + intros Hin. apply bc_do_dirs_sub in Hin. cbn in Hin. rewrite In_rm in Hin. tauto.
+    + intros d' Hin. apply bc_do_dirs_sub in Hin. cbn in Hin. rewrite In_rm in Hin. tauto.
+Qed.
+
+(* ---------- the coarse steps the harness schedules are sequences of sub-steps ---------- *)
+Lemma run_on_inv f : forall s t e, RInv s -> RInv (fst (M.run_on f s t e)).
+Proof.
+  induction f as [|f IH]; intros s t e I; cbn; [exact I|].
+  destruct e; try exact I. destruct (M.pause_code (M.pc_of s t)); [exact I|].
+  destruct (M.pc_of s t); try exact I;
+    (destruct (M.tstep s t true) as [s1 e1] eqn:E; apply IH; replace s1 with (fst (M.tstep s t true)) by (rewrite E; reflexivity); apply tstep_inv; exact I).
+Qed.
+
+Lemma wake_inv s t e : RInv s -> RInv (fst (M.wake s t e)).
+Proof.
+  intros I. unfold M.wake. destruct (M.is_ret e); [|exact I]. destruct (nth_error (M.thrs s) t) as [th|]; [|exact I].
+  destruct (M.find_waiter _ _ _); [apply run_on_inv; exact I|exact I].
+Qed.
+
+Lemma cstep_inv s o : RInv s -> RInv (fst (M.cstep s o)).
+Proof.
+  intros I. destruct o as [n|t ok|u|u|n|n|u|u ok]; cbn [M.cstep].
+  - destruct (M.run_on 16 _ _ _) as [s2 e] eqn:E2. destruct (M.wake s2 _ e) as [s3 e'] eqn:E3. cbn [fst].
+    replace s3 with (fst (M.wake s2 (length (M.thrs s)) e)) by (rewrite E3; reflexivity). apply wake_inv.
+    replace s2 with (fst (M.run_on 16 (fst (M.step s (M.RStart n))) (length (M.thrs s)) M.ENone)) by (rewrite E2; reflexivity).
+    apply run_on_inv. apply step_inv. exact I.
+  - destruct (M.tstep s t ok) as [s1 e1] eqn:E1. destruct (M.run_on 16 s1 t e1) as [s2 e] eqn:E2.
+    destruct (M.wake s2 t e) as [s3 e'] eqn:E3. cbn [fst].
+    replace s3 with (fst (M.wake s2 t e)) by (rewrite E3; reflexivity). apply wake_inv.
+    replace s2 with (fst (M.run_on 16 s1 t e1)) by (rewrite E2; reflexivity). apply run_on_inv.
+    replace s1 with (fst (M.tstep s t ok)) by (rewrite E1; reflexivity). apply tstep_inv. exact I.
+  - apply (step_inv s (M.Done u) I).
+  - apply (step_inv s (M.Close u) I).
+  - apply (step_inv s (M.ExpireL n) I).
+  - apply (step_inv s (M.ExpireB n) I).
+  - pose proof (step_inv s (M.Use u) I) as H. destruct (M.step s (M.Use u)). exact H.
+  - pose proof (step_inv s (M.Refresh u ok) I) as H. destruct (M.step s (M.Refresh u ok)). exact H.
+Qed.
+
+Definition cexec (s : M.st) (os : list M.op) : M.st := fold_left (fun s o => fst (M.cstep s o)) os s.
+Lemma cexec_inv os : forall s, RInv s -> RInv (cexec s os).
+Proof. unfold cexec. induction os as [|o os IH]; simpl; intros s I; [exact I|]. apply IH. apply cstep_inv. exact I. Qed.
+
+(* ---------- single instance: what the cache lookup returns ---------- *)
+Lemma lookup_hit s t th v : nth_error (M.thrs s) t = Some th -> M.t_pc th = M.PWait ->
+  M.mem (M.t_name th) (M.locks s) = false -> lru_find (lru (M.lc s)) (M.t_name th) = Some v ->
+  let s1 := fst (M.tstep s t true) in
+  M.pc_of s1 t = M.PHit (length (hs (M.lc s))) /\ M.hval (M.lc s1) (length (hs (M.lc s))) = Some v.
+Proof.
+  intros Ht Hp Hl Hf. unfold M.tstep. rewrite Ht, Hp, Hl. cbv zeta.
+  set (s0 := M.set_locks s (M.t_name th :: M.locks s)).
+  assert (Hh : is_hit (M.lc s0) (Get (M.t_name th)) v) by exact Hf.
+  destruct (hit_spec _ _ _ Hh) as (Ehs & Elog & _ & fl & Hsnd & _).
+  rewrite snd_lc_do, Hsnd. cbn [fst].
+  assert (E : fst (M.lc_do s0 (Get (M.t_name th))) = M.set_lc s0 (fst (step (M.lc s0) (Get (M.t_name th))))).
+  { unfold M.lc_do. cbn [fst]. rewrite (newlog_same _ _ Elog). reflexivity. }
+  split.
+  - apply (pc_of_setpc _ t _ _ th). rewrite E. exact Ht.
+  - rewrite E. unfold M.hval.
+    match goal with |- context [M.lc (M.setpc (M.set_lc s0 ?c) ?a ?b ?p)] => change (M.lc (M.setpc (M.set_lc s0 c) a b p)) with c end.
+    change (M.lc s0) with (M.lc s) in *. rewrite Ehs.
+    rewrite nth_error_app2 by lia. rewrite Nat.sub_diag. reflexivity.
+Qed.
+
+Lemma hit_returns s t th h v : nth_error (M.thrs s) t = Some th -> M.t_pc th = M.PHit h ->
+  M.layer_flags s h = (false, false) -> M.hval (M.lc s) h = Some v ->
+  snd (M.tstep s t true) = M.ERet v false.
+Proof. intros Ht Hp Hf Hv. unfold M.tstep. rewrite Ht, Hp, Hf, Hv. reflexivity. Qed.
+
